@@ -85,6 +85,9 @@ def worker(args, scratch):
             if common.is_timeout(status):
                 if not res.get("inconclusive"):
                     res.setdefault("inconclusive", []).append("client socket watchdog fired while waiting for the proxy; not a verdict")
+                cnt["client_watchdog_firings"] = cnt.get("client_watchdog_firings", 0) + 1
+                if cnt["client_watchdog_firings"] >= 2:
+                    break       # do not spend 3 minutes on every remaining case
                 continue
             res["evaluations"] += 1
             relayed = got_hash.get(vid)
